@@ -99,12 +99,23 @@ type VerifEntry struct {
 	ModTime    int64
 	Footprints []byte
 	NbFonts    int
+	LocationOK bool // every footprint points back to Path
 }
 
 func VerifEntries(idx VerifIndex) []VerifEntry {
 	out := make([]VerifEntry, len(idx))
 	for i, f := range idx {
-		out[i] = VerifEntry{Path: f.path, ModTime: int64(f.modTime), Footprints: serializeFootprintsTo(f.footprints, nil), NbFonts: len(f.footprints)}
+		// the footprints are serialized without the file name (given by Path), so that the
+		// projection of a font does not depend on where it is stored
+		fps := append([]Footprint(nil), f.footprints...)
+		locOK := true
+		for j := range fps {
+			if fps[j].Location.File != f.path {
+				locOK = false
+			}
+			fps[j].Location.File = ""
+		}
+		out[i] = VerifEntry{Path: f.path, ModTime: int64(f.modTime), Footprints: serializeFootprintsTo(fps, nil), NbFonts: len(fps), LocationOK: locOK}
 	}
 	return out
 }
